@@ -30,6 +30,7 @@ class FS:
         self.alive = set()
         self.oplog = []
         self.removed_live = False
+        self.removed_live_other = False
         if stale:
             self.links["L"] = str(DEAD_PID)
 
@@ -59,7 +60,18 @@ class FS:
             raise OSError(errno.ENOENT, "gone")
         v = self.links.pop(name)
         if int(v) in self.alive and int(v) != self.pid():
-            self.removed_live = True
+            # The recorded finding is exactly: this process read the *dead* owner, found it dead
+            # and removes the link -- which meanwhile became another process's live lock.
+            mine = [o for o in self.oplog if o[0] == self.pid()]
+            last = mine[-3:]
+            classic = (len(last) == 3 and last[0][1:] == ("symlink", "EEXIST") and last[1][1:] == ("readlink", str(DEAD_PID))
+                       and last[2][1:] == ("kill", "ESRCH"))
+            if classic:
+                self.removed_live = True
+            elif not self.removed_live:
+                # (after the recorded race has happened, further damage -- e.g. the first holder's
+                # unlock() removing the second holder's link -- is its consequence, not a new defect)
+                self.removed_live_other = True
         self.oplog.append((self.pid(), "rmlink", v))
 
     def kill(self, pid, sig):
@@ -144,7 +156,9 @@ def run_one(ch, nproc, rounds, stale, die):
     # root-cause classification: a stale-lock breaker removed a lock owned by a live process
     out = []
     for sig, d in bad:
-        if fs.removed_live and sig in ("two-holders", "holder-cannot-release"):
+        if fs.removed_live_other and sig in ("two-holders", "holder-cannot-release"):
+            sig = sig + ":live-lock-removed-without-having-just-read-a-dead-owner"
+        elif fs.removed_live and sig in ("two-holders", "holder-cannot-release"):
             sig = sig + ":after-stale-break-removed-live-lock"
         out.append((sig, d))
     collided = any(o[2] in ("EEXIST", "ENOENT", "ESRCH") for o in fs.oplog)
